@@ -72,6 +72,20 @@ def _session(case):
     engine is never re-created), under one outer pool bracket; documents, formats, languages and the engine API shapes still vary."""
     if not case.get('session'):
         return case
+    if case['session'] == 2:
+        # an engine that imports OPML: the first conversion replaces the engine's text with the imported text, later conversions (other
+        # formats, the MMD text itself, metadata queries in between) must still answer like a fresh engine given the OPML source
+        ext = ((case['steps'][0]['ext'] & ~RANDOMS) | EXT['PARSE_OPML']) & ~EXT['COMPAT']
+        steps = [dict(s, ext=ext, doc=['o', 0], api=('E', 'E', 'Emeta')[i % 3], fmt=s['fmt'] if s['fmt'] in ('html', 'latex', 'mmd', 'opml', 'fodt') else 'mmd')
+                 for i, s in enumerate(case['steps'])]
+        return dict(case, steps=steps, outer_pool=True)
+    if case['session'] == 3:
+        # nesting around the parser's depth limit: a document beyond the limit, then documents just below it, on one engine
+        ext = case['steps'][0]['ext'] & ~RANDOMS & ~EXT['COMPAT']
+        depths = [1005, 997, 2000, 996, 997, 1001, 995]
+        steps = [dict(s, ext=ext, doc=['n', depths[(i + case['steps'][0]['lang']) % len(depths)]], api='E', fmt=s['fmt'] if s['fmt'] in ('html', 'latex', 'opml') else 'html')
+                 for i, s in enumerate(case['steps'])]
+        return dict(case, steps=steps, outer_pool=True)
     ext = case['steps'][0]['ext'] & ~RANDOMS
     steps = []
     for s in case['steps']:
@@ -86,7 +100,7 @@ def _session(case):
 
 def strategy(tier):
     return st.fixed_dictionaries({'steps': st.lists(step, min_size=1, max_size=12), 'outer_pool': st.booleans(),
-                                  'session': st.sampled_from([False, False, True])}).map(_session)
+                                  'session': st.sampled_from([0, 0, 0, 0, 1, 1, 2, 3])}).map(_session)
 
 
 def doc_text(d):
@@ -100,6 +114,8 @@ def doc_text(d):
         return gdoc.ser_doc(v)
     if k == 'm':
         return MULTISLAB
+    if k == 'n':
+        return '>' * v + ' deeptext inside %d quote levels\n' % v
     return OPML_DOC
 
 
